@@ -447,10 +447,10 @@ func NoIBBOverlap(txtAPI hwapi.LowLevelHardwareInterfaces, p *PreSet) (bool, err
 
 // NoBIOSACMOverlap checks if BIOS ACM Entries Overlap
 func NoBIOSACMOverlap(txtAPI hwapi.LowLevelHardwareInterfaces, p *PreSet) (bool, error, error) {
-	for i, hdr1 := range fitHeaders {
+	for _, hdr1 := range fitHeaders {
 		if hdr1.Type() == fit.EntryTypeBIOSStartupModuleEntry {
-			for j, hdr2 := range fitHeaders {
-				if i < j && hdr2.Type() == fit.EntryTypeStartupACModuleEntry {
+			for _, hdr2 := range fitHeaders {
+				if hdr2.Type() == fit.EntryTypeStartupACModuleEntry {
 					a := hdr1.Address.Pointer() >= hdr2.Address.Pointer()+uint64(getFITDataSize(hdr2, txtAPI))
 					b := hdr2.Address.Pointer() >= hdr1.Address.Pointer()+uint64(getFITDataSize(hdr1, txtAPI))
 
